@@ -293,7 +293,36 @@ def r7_reader_accepts_what_the_writer_accepts(cx):
               "with a stored location of %d bytes (admissible: the field holds up to %d) PackInfo::parse reaches its Ok return and no explicit rejection (lines %s)" % (n, maxlen, rejected))
 
 
+def r8_location_slot_is_padded_in_one_piece(cx):
+    """'only the location field of that pack changes': the location is a fixed slot of 1 + 213 bytes whatever its
+    length; `serialize_string_padded` writes the length, the bytes, then ONE run of `size - len` zeros. The writes
+    are straight-line code (none inside a loop, where a boundary length -- a padding that is a multiple of the chunk --
+    drops or doubles a piece and shifts the CRC into the slot) and the zeros written number `size - len`."""
+    F = cx.F
+    f = F.one(regex=r"pstring::PArray::<.*>::serialize_string_padded$")
+    b = F.deep_body(f, only=r"pstring::PArray")
+    ws = b.calls(r"Serializer::write_(data|u8)$")
+    if len(ws) < 3:
+        raise AnchorLost("serialize_string_padded: %d writes (length, bytes, padding expected)" % len(ws))
+    looped = [t.get("ln") for i, t in ws if i in b.reach_after(i)]
+    cx.ob("R8", "R8/serialize_string_padded/straight-line", not looped, f, "none of the %d writes of a padded string is inside a loop (in a loop: lines %s)" % (len(ws), looped))
+    subs = []
+    for i, blk in enumerate(b.blocks):
+        if blk.get("cleanup"):
+            continue
+        for st in blk["s"]:
+            rv = st.get("rv") or {}
+            if st["k"] == "assign" and rv.get("k") == "bin" and rv["op"] in ("Sub", "SubWithOverflow"):
+                oa, ob_ = b.origins(rv["a"]), b.origins(rv["b"])
+                if ("param", 2) in oa and any(x[0] == "call" and call_is(b.term(x[1]), r"::len$") for x in ob_) and ("param", 2) not in ob_:
+                    subs.append(st.get("ln"))
+    pad = [t for i, t in ws if call_is(t, r"write_data$") and ("param", 2) in b.origins(t["args"][1]) and any(x[0] == "call" and call_is(b.term(x[1]), r"::len$") for x in b.origins(t["args"][1]))]
+    cx.ob("R8", "R8/serialize_string_padded/padding-is-size-minus-len", bool(subs) and len(pad) == 1, f,
+          "one write whose data is sized by `size - string.len()` (subtractions at lines %s, padding writes %d)" % (subs, len(pad)))
+
+
 RULES = [
+    ("R8", r8_location_slot_is_padded_in_one_piece, 2),
     ("R7", r7_reader_accepts_what_the_writer_accepts, 4),
     ("R6", r6_container_readers_are_file_views, 3),
     ("R1", r1_header_offset, 4),
